@@ -87,3 +87,14 @@ PROPS['C19'] = dict(
              'dict round trip (ru.TypedDict)': 'A',
              'function payload encode/decode (dill)': 'N',
              'slot format conversion': 'not yet built'})
+
+PROPS['C20'] = dict(
+    level='other',
+    claim='raptor DefaultWorker._alloc/_dealloc verified for every occupancy vector and request size (count-based loop invariants, no bound): a grant names exactly the requested number of distinct free cells and marks only those; release is the inverse (round-trip lemma); grants are disjoint from cells held by other requests (lemma)',
+    note='request dispatch (_request_cb/_result_cb), master result mapping and the per-mode dispatchers are not yet under contract; the two-process time-out is outside this family',
+    assumptions=['A2', 'A4', 'A7', 'A11'],
+    explanation='allocator functional contract + inverse lemma + disjointness lemmas; a negative GPU demand is excluded by a stated shape precondition',
+    clauses={'never two requests on one core/GPU': 'P (allocator + lemmas)',
+             'resources given back (round trip)': 'P',
+             'request answered exactly once / result mapping / dispatch restore': 'not yet built',
+             'time-out across two processes': 'N'})
